@@ -89,6 +89,7 @@ inductive Path
   | fdLink (p fd : Nat)               -- <procfs>/<p>/fd/<fd>
   | fdInfo (p fd : Nat)               -- <procfs>/<p>/fdinfo/<fd>
   | net (n : NetFile)                 -- <procfs>/net/<n>
+  | mapFile (p i : Nat)               -- OUTSIDE procfs: the backing path printed by the i-th mapping of <procfs>/<p>/smaps
   deriving DecidableEq, Repr
 
 /-- the process whose /proc/<pid> subtree holds the path (none: system-wide) -/
@@ -102,6 +103,7 @@ def Path.owner : Path → Option Nat
   | .fdLink p _ => some p
   | .fdInfo p _ => some p
   | .net _ => none
+  | .mapFile p _ => some p            -- looked at on behalf of the query about `p`: a refusal there is a refused access of the call
 
 inductive Op | openF | readF | readlink | listdir | stat | lstat
   deriving DecidableEq, Repr
@@ -125,6 +127,14 @@ inductive FdKind
   | infoStale   -- link readable (regular file) but closed before fdinfo is opened
   deriving DecidableEq, Repr
 
+/-- one mapping of /proc/<pid>/smaps, as far as control flow can tell -/
+inductive MapKind
+  | anon                    -- no path / a pseudo path ("[stack]", "[anon:…]"): no further access
+  | file                    -- an absolute path not ending in " (deleted)": no further access
+  | deleted (kept : Bool)   -- the printed path ends in " (deleted)": memory_maps() stat()s the LITERAL path
+                            -- (`path_exists_strict`); `kept` = a file of that literal name exists (then the text is kept)
+  deriving DecidableEq, Repr
+
 structure ProcInfo where
   pid : Nat
   ppid : Nat
@@ -134,6 +144,7 @@ structure ProcInfo where
   tids : List (Nat × Bool)      -- threads in the order the implementation visits them; true = vanished after listing
   fds : List (Nat × FdKind)     -- descriptors in listing order
   stale : Bool                  -- still listed in <procfs> but already gone
+  maps : List MapKind           -- the mappings of smaps, in file order ([] = an empty smaps file: kernel threads)
   deriving DecidableEq, Repr
 
 structure World where
@@ -208,6 +219,7 @@ def tblRead (w : World) (st : WS) : Path → Except Errno Content
       match f with
       | .stat => .ok (.stat ⟨false, i.long, i.ppid, i.ctime⟩)
       | .cmdline => .ok (.args 2 i.guess)
+      | .smaps => .ok (if i.maps.isEmpty then .empty else .text)
       | _ => .ok .text
     | some (.zombie, i) =>
       match f with
@@ -279,6 +291,13 @@ def tblStat (w : World) (st : WS) (p : Path) : Except Errno Unit :=
       | .dir _ _ => .ok ()
       | _ => .error .ENOENT
     | _ => .error .ENOENT
+
+/-- os.stat of the backing path of the i-th mapping of `q` — a file OUTSIDE procfs: it is there or not whatever the
+    state of the process (a process that is gone has no smaps to name it, but a path already read stays a path) -/
+def tblMapFile (w : World) (_st : WS) (q i : Nat) : Except Errno Unit :=
+  match (w.info q).bind (fun inf => inf.maps[i]?) with
+  | some (.deleted true) => .ok ()
+  | _ => .error .ENOENT
 
 def tblNative (w : World) (st : WS) (q : Nat) : Except Errno Unit :=
   match w.state st q with
@@ -360,6 +379,7 @@ def accReadlink (p : Path) : M Target := access (.fs .readlink p) (fun w st => t
 def accListdir (p : Path) : M (List Nat) := access (.fs .listdir p) (fun w st => tblListdir w st p)
 def accStat (p : Path) : M Unit := access (.fs .stat p) (fun w st => tblStat w st p)
 def accLstat (p : Path) : M Unit := access (.fs .lstat p) (fun w st => tblStat w st p)
+def accStatMap (q i : Nat) : M Unit := access (.fs .stat (.mapFile q i)) (fun w st => tblMapFile w st q i)
 def accNative (c : Native) (q : Nat) : M Unit := access (.native c q) (fun w st => tblNative w st q)
 
 /-! ## configuration = translator facts (see Model/C03Gen.lean) -/
@@ -399,6 +419,11 @@ structure Cfg where
   asDictSkipRule : String           -- … and its body: "if attrs: raise; continue"
   parentRootGuard : Bool            -- parent(): the lowest-PID stop runs `self._raise_if_pid_reused()` before `return None`
                                     -- (/repo d7107b4, fixes/C05-parent-root-recycled.diff); false = the stop answers without any access
+  lazyBodies : List String          -- _pslinux.Process methods whose call returns a LAZY result (generator function, or a
+                                    -- `return` of a generator expression / map / filter / zip / iter / a local generator):
+                                    -- the body, and so its OS accesses, run when the front end iterates the result, after
+                                    -- the try of @wrap_exceptions has returned
+  existsStrictClauses : List (List String × String)   -- _common.path_exists_strict: except classes ↦ "raise" | "return False"
   deriving DecidableEq, Repr
 
 section
@@ -460,9 +485,13 @@ def wrapExceptions (p : Nat) (body : M α) : M α :=
     | none => none
     | some cl => some (wrapSteps cfg p e cl.2))
 
-/-- a `_pslinux.Process` method: decorated iff the translator saw the decorator -/
+/-- a `_pslinux.Process` method: decorated iff the translator saw the decorator. A method whose call returns a lazy
+    result (`cfg.lazyBodies`) gets nothing from the decorator: `return fun(self, …)` inside the decorator's try only
+    creates the generator / iterator object; the body runs while the front end iterates it (every front-end method
+    consumes the result right after the call, with no OS access in between), outside every handler of the decorator. -/
 def W (name : String) (p : Nat) (body : M α) : M α :=
-  if cfg.wrapped.contains name then wrapExceptions cfg p body else body
+  if cfg.lazyBodies.contains name then body
+  else if cfg.wrapped.contains name then wrapExceptions cfg p body else body
 
 /-- `@memoize_when_activated` on a method of the object `p` (exceptions are not cached) -/
 def memo (get : Cache → Option α) (set : α → Cache → Cache) (p : Nat) (body : M α) : M α := do
@@ -580,6 +609,28 @@ def memoryFullInfo (p : Nat) : M Unit := W cfg "memory_full_info" p <| do
   else parseSmaps cfg p
   memoryInfo cfg p
 
+/-- `_common.path_exists_strict(path)` on the backing path of the i-th mapping: `os.stat`, then the helper's own
+    except clauses in source order (translator fact): "raise" re-raises, "return False" answers False -/
+def pathExistsStrict (p i : Nat) : M Bool :=
+  tryCatch (do accStatMap p i; pure true)
+    (fun e =>
+      match (cfg.existsStrictClauses.find? (fun c => catches c.1 e)).map (·.2) with
+      | some "raise" => some (throw e)
+      | some "return False" => some (pure false)
+      | _ => none)
+
+/-- the `for header, data in get_blocks(…)` loop of memory_maps(): one item per mapping; a path ending in
+    " (deleted)" is probed with `path_exists_strict` (mapping index, items so far) -/
+def mapsLoop (p : Nat) : List MapKind → Nat → Nat → M Nat
+  | [], _, n => pure n
+  | .deleted _ :: ks, i, n => do
+    let _ ← pathExistsStrict cfg p i      -- only decides whether the suffix is cut off
+    mapsLoop p ks (i + 1) (n + 1)
+  | _ :: ks, i, n => mapsLoop p ks (i + 1) (n + 1)
+
+/-- the mappings a non-empty smaps record of `p` lists (the record's content, which the `Content` abstraction drops) -/
+def askMaps (p : Nat) : M (List MapKind) := fun c s => (.ok (((c.w.info p).map (·.maps)).getD []), s)
+
 /-- memory_maps(): number of mappings -/
 def memoryMaps (p : Nat) : M Nat := W cfg "memory_maps" p <| do
   let c ← readSmapsFile cfg p
@@ -587,7 +638,9 @@ def memoryMaps (p : Nat) : M Nat := W cfg "memory_maps" p <| do
   | .empty => do
     raiseIfZombie cfg p
     pure 0
-  | _ => pure 2
+  | _ => do
+    let ms ← askMaps p
+    mapsLoop cfg p ms 0 0
 
 def numCtxSwitches (p : Nat) : M Unit := W cfg "num_ctx_switches" p <| do
   let c ← readStatusFile cfg p
